@@ -438,6 +438,13 @@ HostForms(H, F) ==
              \o direct("errorf", d, MSD(F, d) # {}, <<FmtFace(F, d)>>)
              \o direct("sort",   d, "M" \in MSD(F, d), Probe("Sort"))
              \o direct("fprint", d, "N" \in MSD(F, d), Probe("Writer"))
+             \* io.Copy looks for an OPTIONAL second interface in the dynamic value it is given: io.WriterTo
+             \* in the source (faces Read of M, WriteTo of N), io.ReaderFrom in the destination (faces Write
+             \* of N, ReadFrom of M); the method set of the dynamic type decides, promoted methods included
+             \o direct("copysrc", d, "M" \in MSD(F, d),
+                       IF "N" \in MSD(F, d) THEN << <<"N", "WriteTo">> >> ELSE << <<"M", "Read">> >>)
+             \o direct("copydst", d, "N" \in MSD(F, d),
+                       IF "M" \in MSD(F, d) THEN << <<"M", "ReadFrom">> >> ELSE << <<"N", "Write">> >>)
              \o viaI("IM", d) \o viaI("IN", d) \o viaI("IMN", d)])
 
 -------------------------------------------------------------------------------
@@ -618,7 +625,7 @@ Excluded_F_C05_8(F, f) ==
 \* search of lookupMethod finds that one first
 RelM(f) == ({f.m} \cap Meths) \cup IMeths(f.s) \cup IMeths(f.t)
            \cup UNION {UNION {IMeths(f.cl[u][w]) : w \in 1..Len(f.cl[u])} : u \in 1..Len(f.cl)}
-           \cup (IF f.k \in {"sprint", "errorf", "sprinti", "fprint", "sort"} THEN Meths ELSE {})
+           \cup (IF f.k \in {"sprint", "errorf", "sprinti", "fprint", "sort", "copysrc", "copydst"} THEN Meths ELSE {})
 Excluded_F_C05_9(FJ, f) ==
     \/ \E m \in RelM(f) : FJ[f.j].dfs[m]
     \/ f.k \in TwoKinds /\ FJ[1].dfs[f.m]
